@@ -6,7 +6,8 @@ GRAN = 8 * 1024 * 1024
 
 def filler(n, start):
     # byte i of the line (counted from the line start) is 'a' + (i % 23); the harness re-checks it
-    return bytes(97 + ((start + i) % 23) for i in range(n))
+    pat = bytes(97 + ((start + i) % 23) for i in range(23))
+    return (pat * (n // 23 + 1))[:n]
 
 def make_line(fmt, fid, ln, total_len, newline=True):
     """A line of exactly total_len bytes (including the newline if any) carrying the id f<fid>_<ln>."""
@@ -57,7 +58,12 @@ def gen_fileset(rng, fmt, ranks, d):
     sizes = []
     for i in range(nfiles):
         sizes.append(rng.choice([9, 10, 12, 17]) * 1024 * 1024 // nfiles + rng.randrange(0, 4096))
-    if rng.random() < 0.3:
+    huge = ranks >= 3 and rng.random() < 0.3
+    if huge:
+        # one file with at least two range boundaries and a line that covers a whole rank's range (it contains two
+        # consecutive boundaries)
+        nfiles, sizes = 1, [26 * 1024 * 1024 + rng.randrange(0, 4096)]
+    elif rng.random() < 0.3:
         # a file ending exactly at a budget boundary
         per = max(sum(sizes) // ranks + 1, GRAN)
         sizes[-1] = per if len(sizes) > 1 else sizes[-1]
@@ -70,7 +76,7 @@ def gen_fileset(rng, fmt, ranks, d):
     minlen = {'lines': 12, 'csv': 30, 'ndjson': 40}[fmt]
     allow_empty = fmt == 'lines' and rng.random() < 0.4
     for fid, size in enumerate(sizes):
-        align = rng.choice([-1, 0, 1, 'inside', 'long'])
+        align = 'huge' if huge else rng.choice([-1, 0, 1, 'inside', 'long'])
         lens, pos, ln = [], 0, 0
         targets = sorted(bounds.get(fid, []))
         final_newline = rng.random() < 0.6
@@ -81,11 +87,14 @@ def gen_fileset(rng, fmt, ranks, d):
                 L = 1 if (allow_empty and rng.random() < 0.5) else minlen     # empty lines (just a newline)
             if nxt and pos + L + 5000 > nxt[0] >= pos:
                 t = nxt[0]
-                if t - pos < minlen + 2 and align not in ('long', 'inside'):
+                if align == 'huge' and len(nxt) > 1:
+                    L = (nxt[1] - pos) + rng.choice([5000, 1, 0, 100000])      # covers the whole range between two boundaries
+                    targets = [x for x in targets if x != nxt[1]]
+                elif t - pos < minlen + 2 and align not in ('long', 'inside', 'huge'):
                     L = (t - pos) + 37 + minlen                      # too close: cross the boundary inside this line
                 elif align == 'long':
                     L = (t - pos) + rng.choice([GRAN // 2, 5000])          # a very long line across the boundary
-                elif align == 'inside':
+                elif align in ('inside', 'huge'):
                     L = (t - pos) + 37
                 else:
                     L = (t - pos) + align + 0        # next line starts at t + align
